@@ -25,8 +25,22 @@ def universe(tier, which):
 
 
 def init():
+    # the host grammar is compiled twice under the same name: the module in use is a re-compilation
+    # (pickling must follow the module that is installed now)
+    ox.host(HOSTNAME)
     g = ox.host(HOSTNAME)
     return {'g': g}
+
+
+def same_value(g, got, want):
+    """got must be ==, !=-consistent and hash-equal to an independently built equal object"""
+    if not ox.ref_eq(g, got, want):
+        return 'not structurally equal to the expected object'
+    if not (got == want and want == got) or (got != want):
+        return '== disagrees for the result'
+    if hash(got) != hash(want):
+        return 'result equal to expected object but hash differs'
+    return None
 
 
 def viol(res, sigs, sig, script, extra=None):
@@ -115,6 +129,12 @@ def single_job(job, st):
                         return 'metadata lost'
                     if ox.snapshot(g, r) != snap:
                         return 'original modified'
+                    # the result as a value: compare with an independently constructed object
+                    d = dict(r._asdict())
+                    d[f] = v
+                    w = same_value(g, n, type(r)(**d))
+                    if w:
+                        return w
             n = r._replace()
             if n is r or not (n == r):
                 return 'empty replace'
@@ -130,6 +150,7 @@ def single_job(job, st):
                 return 'metadata differs'
             if ox.snapshot(g, r) != snap:
                 return 'original modified'
+            return same_value(g, c, ox.construct(script, g)[-1])
         op('deepcopy', t_deepcopy)
 
         def t_pickle():
@@ -138,12 +159,14 @@ def single_job(job, st):
                 return 'round trip not equal'
             if ox.snapshot(g, c) != snap:
                 return 'metadata differs'
+            return same_value(g, c, ox.construct(script, g)[-1])
         op('pickle', t_pickle)
 
         def t_repr():
             c = eval(repr(r), dict(vars(g)))
             if not ox.ref_eq(g, c, r) or not (c == r):
                 return 'eval(repr) not equal'
+            return same_value(g, c, ox.construct(script, g)[-1])
         op('repr', t_repr)
     res['sample'] = {'script': scripts[k] if k < len(scripts) else None, 'ops': ['eq-hash', 'asdict', 'replace x4 values', 'deepcopy', 'pickle', 'repr']}
     return res
